@@ -44,7 +44,7 @@ ASSUMPTIONS = (
 )
 EXPECTED_PROBES = ("second-chance-read-hit", "mutex-contended", "two-threads-saw-stale", "failing-compile-while-other-waited",
                    "lru-eviction-during-run", "setitem-concurrent-with-manage-size", "cache-memoised-twice",
-                   "writer-modified-during-call", "render-with-nested-lookups", "uri-cache-eviction", "direct-construct-with-module-directory")
+                   "writer-modified-during-call", "render-with-nested-lookups", "uri-cache-eviction", "direct-construct-with-module-directory", "adjust-uri-direct")
 
 HOT_FUNCS = ("get_template", "_check", "_load", "adjust_uri", "__getitem__", "__setitem__", "_manage_size", "__get__")
 
@@ -121,7 +121,7 @@ def _expected_text(tag, x, uspecs, nested, cached, loops):
 
 
 # ---------------------------------------------------------------- generator
-SWEEP_EVERY = 120  # about one run in SWEEP_EVERY is a complete single-pre-emption sweep of a small workload
+SWEEP_EVERY = 80  # about one run in SWEEP_EVERY is a complete single-pre-emption sweep of a small workload
 
 
 def generate(rng, tier, idx, force=None):
@@ -154,7 +154,7 @@ def _workload(rng, small=False):
     }
     names = ["a.html", "b.html", "sub/c.html", "sub/d.html", "e.html"]
     rng.shuffle(names)
-    nuri = rng.randint(3, 4) if small else rng.randint(2, 5)
+    nuri = rng.randint(3, 5) if small else rng.randint(2, 5)
     uspecs = [{"uri": "/" + names[i], "rel": names[i], "kind": "plain"} for i in range(nuri)]
     idxs = list(range(nuri))
     r = rng.random()
@@ -173,6 +173,27 @@ def _workload(rng, small=False):
         src, tgt = rng.sample(plains, 2)
         uspecs[src]["kind"] = "inc"
         uspecs[src]["ref"] = _ref(rng, uspecs[src], uspecs[tgt])
+    if small and rng.random() < 0.5:
+        # many referring templates: every include/namespace reference is its own key in the (bounded, unlocked)
+        # uri cache, so two rendering threads insert and prune there at the same time
+        for i in idxs[1:]:
+            if uspecs[i]["kind"] == "plain":
+                tgt = rng.choice([j for j in idxs if j != i and uspecs[j]["kind"] in ("plain", "inc")] or [idxs[0]])
+                if tgt != i and uspecs[tgt].get("ref") != uspecs[i]["uri"]:
+                    uspecs[i]["kind"] = rng.choice(("inc", "ns")) if uspecs[tgt]["kind"] == "plain" else "inc"
+                    uspecs[i]["ref"] = _ref(rng, uspecs[i], uspecs[tgt])
+        # no reference cycles: a target that itself refers back is reset to plain
+        for u in uspecs:
+            if u["kind"] in ("inc", "ns"):
+                tgt = next((v for v in uspecs if v["uri"] == adjust_uri(u["ref"], u["uri"])), None)
+                seen = {u["uri"]}
+                while tgt is not None and tgt["kind"] in ("inc", "ns"):
+                    if tgt["uri"] in seen:
+                        tgt["kind"] = "plain"
+                        tgt.pop("ref", None)
+                        break
+                    seen.add(tgt["uri"])
+                    tgt = next((v for v in uspecs if v["uri"] == adjust_uri(tgt["ref"], tgt["uri"])), None)
     has_broken = rng.random() < 0.3
     if has_broken:
         uspecs.append({"uri": "/broken.html", "rel": "broken.html", "kind": "broken"})
@@ -196,6 +217,12 @@ def _workload(rng, small=False):
                 continue
             r = rng.random()
             u = hot if rng.random() < 0.5 else rng.choice(gettable)
+            if rng.random() < (0.35 if small else 0.12):
+                # the uri arithmetic renders do for every include/inherit/namespace, called directly: each distinct
+                # (uri, relativeto) pair is an entry of the bounded, unlocked uri cache
+                for _ in range(rng.randint(1, 3)):
+                    ops.append(["adjust", rng.choice(("x.html", "/y.html", "sub/z.html", "w.html")), rng.choice(("/a.html", "/sub/b.html", "/sub/deep/c.html"))])
+                continue
             if cfg["moddir"] and rng.random() < 0.3:
                 # Template(filename=..., module_directory=...) built directly, not through the lookup's mutex:
                 # concurrent Templates for the same source in this process share the module file
@@ -553,6 +580,19 @@ class Harness:
                 raise
             except Exception:
                 pass
+        elif kind == "adjust":
+            try:
+                got = self.lookup.adjust_uri(op[1], op[2])
+            except SchedulerAbort:
+                raise
+            except BaseException as e:
+                self.flag("undocumented-exception", "%s: adjust_uri(%r, %r) raised %s: %s" % (name, op[1], op[2], type(e).__name__, str(e)[:100]),
+                          "%s@%s" % (type(e).__name__, _where(e)))
+                return
+            want = adjust_uri(op[1], op[2])
+            if got != want:
+                self.flag("render-crosstalk", "%s: adjust_uri(%r, %r) returned %r instead of %r (an entry of another key)" % (name, op[1], op[2], got, want))
+            self.probe("adjust-uri-direct")
         elif kind == "signal":
             self.event(op[1]).signal()
         elif kind == "wait":
@@ -862,7 +902,7 @@ def execute_single(trace, root):
         violations.append({"signature": sig, "message": msg})
     ih = h.sched.interleaving_hash()
     h.log.add("end", ih, sorted(seen))
-    nthreads = sum(1 for n, ops in trace["actors"].items() if n != "W" and any(o[0] in ("get", "render", "has") for o in ops))
+    nthreads = sum(1 for n, ops in trace["actors"].items() if n != "W" and any(o[0] in ("get", "render", "has", "adjust", "construct") for o in ops))
     out = {
         "violations": violations,
         "digest": h.log.digest(),
